@@ -102,6 +102,12 @@ def groups(tier, seed):
     return [dict(label=l, P=P, cell=c, tier=tier) for l, P, c in _families(tier)]
 
 
+def count(group):
+    """closed-form size of a group (independent of the generator): all n! rankings x 2 modes"""
+    import math
+
+    return 2 * math.factorial(len(group["P"]))
+
 def cases(group):
     n = len(group["P"])
     for rank in itertools.permutations(range(n)):
